@@ -441,36 +441,78 @@ class Oracle:
         if not self.att[sid]:
             outs_unsub_expect.append(sid)
 
+    def sub_specs(self, op):
+        """[(H, topic, withobj, effective options)] of a subscribe call, or None if SubscribeOptions(...) must raise"""
+        if op[0] == "sub":
+            specs = [(normH(op[1]), op[2], False, normH(op[1])["opts"])]
+            call = None
+        else:
+            call = op[2] if len(op) > 2 else None
+            specs = []
+            for me in op[1]:
+                H = normH(me[0])
+                eff = H["opts"] if H["opts"] is not None else (call if call is not None else {"match": "exact"})
+                specs.append((H, me[1], True, eff))
+        if any(opts_invalid(sp[3]) for sp in specs) or opts_invalid(call): return None
+        return specs
+
+    def register(self, where, o, sp):
+        """a SUBSCRIBE went out for handler spec sp: from now on the request is pending"""
+        H, t, wo, eff = sp
+        if o[3] != t: self.flag("session.subscribe/topic", f"{where}: SUBSCRIBE for topic {o[3]}, asked {t}")
+        want_m = None if eff is None or eff.get("match") in (None, "exact") else eff["match"]
+        want_r = None if eff is None else eff.get("get_retained")
+        if (o[4], o[5]) != (want_m, want_r):
+            self.flag("session.subscribe/options-on-wire", f"{where}: SUBSCRIBE options match={o[4]} get_retained={o[5]}, "
+                      f"asked match={want_m} get_retained={want_r}")
+        H = dict(H, det=requested(eff))          # the details the application REQUESTED (specification, not the code)
+        self.pend[o[2]] = (H, t, wo)
+
     def step(self, i, op, outs):
-        """one operation; messages delivered from inside send() are judged as if they had arrived right after the
-        call (that is what recording the request before sending is for), using the driver's segment marks"""
+        """one operation; messages delivered from inside send() are judged, in the order things happened, as if they
+        had arrived right after the call (that is what recording the request before sending is for)"""
         msgs = inline_of(op)
-        if not msgs and not any(o[0] == "mark" for o in outs):
-            return self.step_one(i, op, outs)
-        segs, cur = {"api": []}, "api"
+        k = op[0]
+        op0 = op[:3] if k == "sub" else op[:2] if k == "unsub" else \
+            (["subobj", [me[:2] for me in op[1]]] + ([op[2]] if len(op) > 2 else [])) if k == "subobj" else op
+        if not any(o[0] == "mark" for o in outs):
+            return self.step_one(i, op0, outs)
+        chunks, cur = [["api", []]], "api"
         for o in outs:
             if o[0] == "mark":
                 cur = "api" if o[1] == "end" else o[1]
-                segs.setdefault(cur, [])
+                chunks.append([cur, []])
             else:
-                segs[cur].append(o)
+                chunks[-1][1].append(o)
+        api_all = [o for c, os_ in chunks if c == "api" for o in os_]
+        late = [o for o in api_all if o[0] in ("invoke", "usererror")]          # asyncio: what the loop ran after the call
         n_ev = sum(1 for m in msgs if m[0] == "event")
-        api = segs["api"]
-        late = [o for o in api if o[0] in ("invoke", "usererror")]          # asyncio: what the loop ran after the call
-        base = [o for o in api if o[0] not in ("invoke", "usererror", "done")]
-        if len(op) and op[0] == "sub": op0 = op[:3]
-        elif op[0] == "unsub": op0 = op[:2]
-        else: op0 = ["subobj", [me[:2] for me in op[1]]] + ([op[2]] if len(op) > 2 else [])
-        self.step_one(i, op0, base)
-        for j, m in enumerate(msgs):
-            seg = segs.get(j)
-            if seg is None:
-                continue                  # the send it was scripted for never happened
-            if m[0] == "event" and n_ev == 1: seg = seg + late
-            self.step_one(f"{i}/inside-send[{j}]", m, seg, reentrant=True)
-        if n_ev != 1 and late and not any(m[0] == "event" for m in msgs):
+        specs = self.sub_specs(op0) if k in ("sub", "subobj") else None
+        n_sent, first_api = 0, True
+        for c, os_ in chunks:
+            if c == "api":
+                base = [o for o in os_ if o[0] not in ("invoke", "usererror", "done")]
+                if k == "unsub":
+                    if first_api: self.step_one(i, op0, base)
+                else:
+                    for o in base:
+                        if o[0] == "sent" and o[1] == "sub":
+                            if specs is not None and n_sent < len(specs) and not self.lost:
+                                self.register(f"op {i} {k}", o, specs[n_sent])
+                            n_sent += 1
+                first_api = False
+            elif c < len(msgs):
+                m = msgs[c]
+                seg = os_ + (late if (m[0] == "event" and n_ev == 1) else [])
+                self.step_one(f"{i}/inside-send[{c}]", m, seg, reentrant=True)
+        if k in ("sub", "subobj") and not self.lost:
+            if specs is None:
+                if n_sent: self.flag("session.subscribe/sent-with-invalid-options", f"op {i} {k}: SUBSCRIBE sent although SubscribeOptions is invalid")
+            elif n_sent != len(specs):
+                self.flag("session.subscribe/SUBSCRIBE-count", f"op {i} {k}: {n_sent} SUBSCRIBE sent for {len(specs)} handlers")
+        if late and n_ev != 1:
             self.flag("handler-invoked-outside-EVENT", f"op {i}: {late}")
-        self.step_one(i, ["noop"], [o for o in api if o[0] == "done"])
+        self.step_one(i, ["noop"], [o for o in api_all if o[0] == "done"])
 
     def step_one(self, i, op, outs, reentrant=False):
         k = op[0]
@@ -482,31 +524,14 @@ class Oracle:
         expect_unsub = []
         where = f"op {i} {k}"
         if k in ("sub", "subobj") and not self.lost:
-            if k == "sub":
-                specs = [(normH(op[1]), op[2], False, normH(op[1])["opts"])]
-            else:
-                call = op[2] if len(op) > 2 else None
-                specs = []
-                for me in op[1]:
-                    H = normH(me[0])
-                    eff = H["opts"] if H["opts"] is not None else (call if call is not None else {"match": "exact"})
-                    specs.append((H, me[1], True, eff))
-            bad_opts = any(opts_invalid(sp[3]) for sp in specs) or (k == "subobj" and opts_invalid(op[2] if len(op) > 2 else None))
-            if bad_opts:
+            specs = self.sub_specs(op)
+            if specs is None:
                 if sent_sub: self.flag("session.subscribe/sent-with-invalid-options", f"{where}: SUBSCRIBE sent although SubscribeOptions is invalid")
                 specs = []
             elif len(sent_sub) != len(specs):
                 self.flag("session.subscribe/SUBSCRIBE-count", f"{where}: {len(sent_sub)} SUBSCRIBE sent for {len(specs)} handlers")
             for o, sp in zip(sent_sub, specs):
-                H, t, wo, eff = sp
-                if o[3] != t: self.flag("session.subscribe/topic", f"{where}: SUBSCRIBE for topic {o[3]}, asked {t}")
-                want_m = None if eff is None or eff.get("match") in (None, "exact") else eff["match"]
-                want_r = None if eff is None else eff.get("get_retained")
-                if (o[4], o[5]) != (want_m, want_r):
-                    self.flag("session.subscribe/options-on-wire", f"{where}: SUBSCRIBE options match={o[4]} get_retained={o[5]}, "
-                              f"asked match={want_m} get_retained={want_r}")
-                H = dict(H, det=requested(eff))          # the details the application REQUESTED (specification, not the code)
-                self.pend[o[2]] = (H, t, wo)
+                self.register(where, o, sp)
         elif k == "subscribed" and not self.lost:
             if op[1] in self.pend:
                 H, t, wo = self.pend.pop(op[1])
